@@ -37,6 +37,7 @@ REG.contract(
     "dns.renderer.Renderer._rollback",
     params={"self": RENDERER, "where": T.int},
     requires=["0 <= where and where <= len(self.output.getvalue())"],
+    modifies={"self.output": None, "self.compress": T.map_of(T.int, T.int)},
     raises=[],
     loops={
         0: loop(index="i0", types={"keys_to_delete": T.indexed_list_of_int()}, invariant=[
@@ -57,6 +58,7 @@ REG.contract(
     ghost_entry={"old_keys": "self.compress.keys()", "old_pos": "kpos_of(self.compress)"},
     ensures=[
         "len(self.output.getvalue()) == where",
+        "self.output.tell() == where",
         "self.output.getvalue() == old_self.output.getvalue()[:where]",
         # no compression table entry points at or beyond the truncation point
         "all(self.compress[k] < where for k in self.compress)",
@@ -97,4 +99,45 @@ REG.contract(
     ensures=["self.section == section", "self.section >= old_self.section"],
     props=["C03"],
     note="sections only move forward",
+)
+
+# ----------------------------------------------------------------------------- C08-P1 / C03-P4: a record set that does not fit is removed whole
+from contracts.name import NAME  # noqa: E402
+
+RENDERER_FULL = T.obj("dns.renderer.Renderer", output=T.bytesio, compress=T.map_of(T.int, T.int, ordered=True), max_size=T.int,
+                      reserved=T.int, section=T.range(0, 3), origin=T.opt(NAME), counts=T.list_of(T.int))
+_R_OK = ["self.output.tell() == len(self.output.getvalue())", "len(self.counts) == 4",
+         "all(0 <= self.compress[k] and self.compress[k] <= 0x3FFF and self.compress[k] < len(self.output.getvalue()) for k in self.compress)"]
+_OLEN = "len(old_self.output.getvalue())"
+_UNCHANGED = [
+    f"len(self.output.getvalue()) == {_OLEN}",
+    "self.output.getvalue() == old_self.output.getvalue()",
+    "all(self.counts[j] == old_self.counts[j] for j in range(4))",
+    "all((k in old_self.compress) and self.compress[k] == old_self.compress[k] for k in self.compress)",
+    "all((k in self.compress) for k in old_self.compress)",
+]
+
+REG.contract(
+    "dns.renderer.Renderer.add_question",
+    params={"self": RENDERER_FULL, "qname": NAME, "rdtype": T.u16, "rdclass": T.u16},
+    requires=_R_OK,
+    raises=[("dns.exception.FormError", "self.section > 0"),
+            ("dns.exception.TooBig", "True", "may"),
+            ("dns.name.NeedAbsoluteNameOrOrigin", "True", "may"),
+            ("dns.name.NameTooLong", "True", "may")],
+    ensures=_R_OK + [
+        "len(self.output.getvalue()) <= self.max_size",
+        f"len(self.output.getvalue()) > {_OLEN}",
+        f"self.output.getvalue()[:{_OLEN}] == old_self.output.getvalue()",
+        "self.counts[0] == old_self.counts[0] + 1 and all(self.counts[j] == old_self.counts[j] for j in range(1, 4))",
+        "all((k in self.compress) and self.compress[k] == old_self.compress[k] for k in old_self.compress)",
+    ],
+    ensures_raise={
+        "dns.exception.TooBig": _UNCHANGED + _R_OK,
+        "dns.exception.FormError": ["all(self.counts[j] == old_self.counts[j] for j in range(4))"],
+    },
+    props=["C03", "C08"],
+    note="a question that does not fit is removed whole: on TooBig the buffer, the counts and the compression table are exactly "
+         "what they were (no entry can point into removed bytes); otherwise the output grew within max_size, old bytes and table "
+         "entries are untouched and only the question count moved",
 )
